@@ -778,6 +778,55 @@ def call {L ρ : Type} [DecidableEq L] (v : Variant) (labels : List L) (n : Nat)
                | some _, some d1 => some d1
                | some s, none => some s⟩
 
+/-! ## The caller's set object after a call, whatever its outcome
+
+`drop_rows` is a mutable set that the caller keeps: what a call has put into it stays there also
+when the call raises afterwards, and the same object may be handed to later calls. -/
+
+/-- step 1 with the state of the shared set made explicit: the set as step 1 leaves it — also when
+a null check raises (then: as it was when that check began) — and the error -/
+def evalFactorsSt {ρ : Type} (v : Variant) (p : Policy) :
+    List (Factor ρ) → DropSet → DropSet × Option Err
+  | [], d => (d, none)
+  | f :: r, d =>
+    match checkFactor v p f d with
+    | .error e => (d, some e)
+    | .ok d' => evalFactorsSt v p r d'
+
+/-- the set object after ONE materializer call over `parts` that was handed the set holding `d`
+(steps 2 and 3 do not touch the set) -/
+def gmmSetAfter {ρ : Type} (v : Variant) (pol : Policy) (parts : List (Part ρ)) (d : DropSet) :
+    DropSet :=
+  (evalFactorsSt v pol (parts.flatMap (·.factors)) d).1
+
+/-- the set object after one pass of per-part calls (and whether every call of the pass succeeded) -/
+def passSetAfter {L ρ : Type} [DecidableEq L] (v : Variant) (labels : List L) (n : Nat)
+    (pol : Policy) (o : Output) : List (Part ρ) → DropSet → DropSet × Bool
+  | [], d => (d, true)
+  | p :: r, d =>
+    match getModelMatrix v labels n pol o [p] (some d) with
+    | .error _ => (gmmSetAfter v pol [p] d, false)
+    | .ok (_, d1) => passSetAfter v labels n pol o r d1
+
+/-- The content of the caller's set object after a call through an entry point — whether the call
+returned or raised (`none`: the caller passed no set). -/
+def setAfterCall {L ρ : Type} [DecidableEq L] (v : Variant) (labels : List L) (n : Nat)
+    (pol : Policy) (o : Output) (parts : List (Part ρ)) (c : CallRec) : Option DropSet :=
+  match c.caller with
+  | none => none
+  | some s =>
+    match route v c with
+    | .joint none => some s          -- the caller's object never reached the materializer
+    | .joint (some d) => some (gmmSetAfter v pol parts d)
+    | .perPart none => some s
+    | .perPart (some d) =>
+      if v.sharedPerSpec then
+        match passSetAfter v labels n pol o parts d with
+        | (d1, ok) =>
+          if ok && d1.length != d.length then some (passSetAfter v labels n pol o parts d1).1
+          else some d1
+      else some (passSetAfter v labels n pol o parts d).1
+
 /-! ## `na_action` as the caller writes it -/
 
 /-- the `na_action` argument: an `NAAction` member, or a string -/
@@ -805,5 +854,38 @@ def callNA {L ρ : Type} [DecidableEq L] (v : Variant) (labels : List L) (n : Na
   match parseNAAction na with
   | .error e => .error e
   | .ok pol => call v labels n pol o parts c
+
+/-- … an invalid `na_action` is rejected before anything touches the set -/
+def setAfterCallNA {L ρ : Type} [DecidableEq L] (v : Variant) (labels : List L) (n : Nat)
+    (na : NAInput) (o : Output) (parts : List (Part ρ)) (c : CallRec) : Option DropSet :=
+  match parseNAAction na with
+  | .error _ => c.caller
+  | .ok pol => setAfterCall v labels n pol o parts c
+
+/-! ## One caller set object handed to several calls -/
+
+/-- one call of such a history: its own data, formula, policy, output and entry point; the
+`caller` field of `c` is replaced by the shared object -/
+structure SetCall (L ρ : Type) where
+  labels : List L
+  n : Nat
+  na : NAInput
+  out : Output
+  parts : List (Part ρ)
+  c : CallRec
+
+/-- the call record with the shared object as `drop_rows` -/
+def SetCall.withSet {L ρ : Type} (k : SetCall L ρ) (s : Option DropSet) : CallRec :=
+  { k.c with caller := s }
+
+/-- The same set object is passed as `drop_rows` to every call, in order: per call its result (or
+error) and the content of the object afterwards. -/
+def runSetHistory {L ρ : Type} [DecidableEq L] (v : Variant) :
+    List (SetCall L ρ) → Option DropSet → List (Except Err (CallOut L ρ) × Option DropSet)
+  | [], _ => []
+  | k :: r, s =>
+    let res := callNA v k.labels k.n k.na k.out k.parts (k.withSet s)
+    let s' := setAfterCallNA v k.labels k.n k.na k.out k.parts (k.withSet s)
+    (res, s') :: runSetHistory v r s'
 
 end FormulaicVerif.Model.Nulls
